@@ -194,7 +194,7 @@ KNOWN_CASES = [
 def view(obs):
     """The oracle: the reconstructed observation equals the original's (same driver, same run)."""
     body = obs[2:]
-    if body == "BADCASE":
+    if body.strip() in ("BADCASE", ""):      # nothing was built: nothing to compare
         return "R same"
     problems = []
     M = N = None
@@ -400,17 +400,31 @@ def run(run, tier, seed, replay_case=None):
     rng = random.Random(seed * 7919 + 11)
     n = 1500 if tier == "quick" else 40000
     main = list(C.load_corpus(PROP)) + fixed_cases() + [gen_case(rng, tier) for _ in range(n)]
-    known = list(KNOWN_CASES) + [gen_case(rng, tier, named=True) for _ in range(3 if tier == "quick" else 12)]
+    # cases outside the guards (recorded findings): one minimal case per finding in the quick tier
+    known = list(KNOWN_CASES) + [gen_case(rng, tier, named=True) for _ in range(0 if tier == "quick" else 12)]
     if replay_case is not None:
         main, known = [replay_case], []
     env = C.lib_env("asan")
-    D = C.Differential(run, PROP, [impl], model, env, view=view, signatures=SIGNATURES, keep_first=0,
-                       model_desc="coq/C11/Model.v vs src/dtype/dtype.cpp + src/occa/internal/lang/kernelMetadata.cpp")
+    # LeakSanitizer's scan at exit costs ~3 s per process on the instrumented library: batches run with it, the
+    # one-case re-runs of the shrinker (hundreds of processes when something is broken) run without it
+    env_fast = dict(env)
+    env_fast["ASAN_OPTIONS"] = env["ASAN_OPTIONS"].replace("detect_leaks=1", "detect_leaks=0")
+
+    class Diff(C.Differential):
+        def eval(self, lines, parallel=True):
+            self.env = env if parallel else env_fast
+            try:
+                return C.Differential.eval(self, lines, parallel)
+            finally:
+                self.env = env
+
+    D = Diff(run, PROP, [impl], model, env, view=view, signatures=SIGNATURES, keep_first=0,
+             model_desc="coq/C11/Model.v vs src/dtype/dtype.cpp + src/occa/internal/lang/kernelMetadata.cpp")
     I, R, S = D.eval(main)
-    D.judge(main, I, R, S, proof_failures=pr["failures"])
+    D.judge(main, I, R, S, proof_failures=pr["failures"], max_report=4)
     if known:
         I2, R2, S2 = D.eval(known)
-        D.judge(known, I2, R2, S2, proof_failures=pr["failures"])
+        D.judge(known, I2, R2, S2, proof_failures=pr["failures"], max_report=4)
         I, R, S = I + I2, R + R2, S + S2
     cases = main + known
 
